@@ -2,7 +2,7 @@
  * connection; CS104_Slave_stop; restart; destroy) on the simulated HAL.  White-box include of cs104_slave.c only to map
  * callbacks to peers and to count the slots in use; every decision is the library's.
  *
- * input (one scenario per process):  mode=<0|1|2> conns=<n> startdt=<0|1> rounds=<n> maxconn=<n, 0 = leave the default>
+ * input (one scenario per process):  mode=<0|1|2> conns=<n> startdt=<0|1> rounds=<n> maxconn=<n, 0 = leave the default> [pre=1: a threadless run of the same object first]
  * each round: start; n peers connect; [STARTDT on each in turn]; one peer closes; stop; checks.  The next round restarts
  * the same server object.  Finally destroy.
  * trace: `round ...` / `ev p<i> NAME` lines for information, `bad <code> <text>` for every violated expectation, `done`. */
@@ -77,7 +77,7 @@ static int used_slots(void)
 
 int main(void)
 {
-    int mode = 0, conns = 1, startdt = 0, rounds = 1, maxconn = 0, late = 0;
+    int mode = 0, conns = 1, startdt = 0, rounds = 1, maxconn = 0, late = 0, pre = 0, swtch = 0;
     char line[256];
     setvbuf(stdout, NULL, _IOLBF, 0);
     if (!fgets(line, sizeof line, stdin)) return 0;
@@ -86,7 +86,7 @@ int main(void)
         if (sscanf(t, "%31[^=]=%d", k, &v) != 2) continue;
         if (!strcmp(k, "mode")) mode = v; else if (!strcmp(k, "conns")) conns = v; else if (!strcmp(k, "startdt")) startdt = v;
         else if (!strcmp(k, "rounds")) rounds = v; else if (!strcmp(k, "maxconn")) maxconn = v;
-        else if (!strcmp(k, "deny")) deny = v; else if (!strcmp(k, "late")) late = v;
+        else if (!strcmp(k, "deny")) deny = v; else if (!strcmp(k, "late")) late = v; else if (!strcmp(k, "pre")) pre = v; else if (!strcmp(k, "switch")) swtch = v;
     }
     signal(SIGALRM, on_alarm); alarm(60);
     Sim_setTime(1000000);
@@ -98,6 +98,19 @@ int main(void)
     int limit = maxconn > 0 ? maxconn : CONFIG_CS104_MAX_CLIENT_CONNECTIONS;
     static const uint8_t STARTDT_ACT[6] = {0x68, 4, 7, 0, 0, 0};
 
+    if (pre) {
+        /* pre=1: the same server object is first run in THREADLESS mode (start, a peer connects, a few ticks, stop) and only then
+           started with its own threads: starting, stopping in any order and any number of times */
+        int l0 = nlisteners;
+        CS104_Slave_startThreadless(slave);
+        pthread_mutex_lock(&mx); peers[npeers] = Sim_newPeer("10.0.0.250:2999"); npeers++; pthread_mutex_unlock(&mx);
+        for (int i = 0; i < 3; i++) CS104_Slave_tick(slave);
+        CS104_Slave_stop(slave);
+        nlisteners = l0;    /* the threadless stop releases its listener with ServerSocket_destroy (simhal frees it); the threaded one leaves it to this harness */
+        if (CS104_Slave_isRunning(slave)) printf("bad still-running server reports running after the stop of its threadless run\n");
+        if (CS104_Slave_getOpenConnections(slave) != 0) printf("bad stop-open-nonzero %d open connections reported after the stop of the threadless run\n", CS104_Slave_getOpenConnections(slave));
+        if (count_ev(npeers - 1, 0) > 0 && !peers[npeers - 1]->destroyed) printf("bad socket-left-open the socket of p%d is still open after the stop of the threadless run\n", npeers - 1);
+    }
     for (int r = 0; r < rounds; r++) {
         CS104_Slave_start(slave);
         if (!CS104_Slave_isRunning(slave)) printf("bad not-running server not running after start (round %d)\n", r);
@@ -133,6 +146,23 @@ int main(void)
         /* one admitted peer closes while the server keeps running: CLOSED, counter decremented */
         int victim = -1;
         for (int i = first; i < npeers; i++) if (count_ev(i, 0) > 0) { victim = i; break; }
+        if (swtch && !startdt && victim >= 0) {
+            /* switch=1: the started connection is lost and the master switches over at once: STARTDT act on another connection of the
+               group right after the lost one was reported CLOSED (before the listener thread has reaped its slot) */
+            int other = -1;
+            for (int i = victim + 1; i < npeers; i++) if (count_ev(i, 0) > 0) { other = i; break; }
+            Sim_feed(peers[victim], STARTDT_ACT, 6);
+            WAIT_FOR(count_ev(victim, 2) > 0);
+            if (other >= 0) {
+                Sim_peerClose(peers[victim]);
+                for (long spin = 0; spin < 200000000L && count_ev(victim, 1) == 0; spin++) { }
+                Sim_feed(peers[other], STARTDT_ACT, 6);
+                WAIT_FOR(count_ev(other, 2) > 0);
+                if (count_ev(other, 2) != 1) printf("bad startdt-not-activated p%d reported ACTIVATED %d times after STARTDT act\n", other, count_ev(other, 2));
+                WAIT_FOR(CS104_Slave_getOpenConnections(slave) == on - 1);
+                victim = -1;        /* already closed */
+            }
+        }
         if (victim >= 0) {
             Sim_peerClose(peers[victim]);
             WAIT_FOR(count_ev(victim, 1) > 0 && CS104_Slave_getOpenConnections(slave) == on - 1);
